@@ -69,6 +69,19 @@ func engineAnswer(cwd, dbPath, personal, rawQuery string, limitFlag int, platfor
 func c17DB(t *rapid.T) []database.Command {
 	cmds, _ := gen.DB(t, gen.CmdOpts{Platforms: true, Long: true}, []int{1, 1, 3, 8, 0})
 	for i := range cmds {
+		if rapid.IntRange(0, 9).Draw(t, "hostile-text") == 0 {
+			// printable single-line texts that an encoder or a post-processing step may mangle
+			hostile := rapid.SampledFrom([]string{`printf '\u0026\n'`, `echo "\u003chtml\u003e"`, `a && b > f < g`, `say "quoted" and \"escaped\"`, `path C:\temp\new`, `</script><!--`, `tab\there`, `100% done %s %d`, `{"json": [1, 2]}`, `back\\slash\`, `&amp; &lt; &#38;`, "uni\u2028sep", `'single' "double"`, `\x1b[31mnot-an-escape`, `$(subshell) ${VAR}`}).Draw(t, "hostile")
+			switch rapid.IntRange(0, 2).Draw(t, "hostile-field") {
+			case 0:
+				cmds[i].Command = "run " + hostile
+			case 1:
+				cmds[i].Description = "does " + hostile
+			default:
+				cmds[i].Niche = hostile
+				cmds[i].Keywords = append(cmds[i].Keywords, hostile)
+			}
+		}
 		if rapid.IntRange(0, 7).Draw(t, "sized-cell") == 0 {
 			// command and category cells whose byte length and character count differ (table cells are cut at fixed widths)
 			cmds[i].Command = gen.SizedText(t, true)
